@@ -246,6 +246,27 @@ def server_down_long(res, stack, nserv, extra, op, tier):
             res.case((stack, nserv, tuple(sorted(extra.items())), op[0], repr(op[1:]), "downlong", kind, which))
 
 
+def judge_filled(res, case):
+    """case['fill_after'] = index of the multi-key read whose returned dict the caller fills in before the next call"""
+    import copy
+    fidx = case["fill_after"]
+    snap = {}
+
+    def after_call(w, i, op, rec):
+        if i == fidx and rec["out"][0] == "ret" and isinstance(rec["out"][1], dict):
+            snap["out"] = copy.deepcopy(rec["out"])
+            for k in ("k1", "k2", "k3", b"k1"):
+                rec["out"][1][k] = b"filled-in-by-the-caller"
+    miss = miss_reference(case)
+    c1 = dict(case)
+    c1["faulted"] = fidx
+    miss_first = miss_reference(c1)
+    o = history.execute(case, after_call=after_call)
+    judge(res, c1, o, miss_first, "all-refused", f=fidx, out=snap.get("out"))
+    judge(res, case, o, miss, "all-refused,after-the-caller-filled-the-previous-result")
+    return o
+
+
 def caller_fills_result(res, stack, nserv, extra, tier):
     """read-through pattern: the caller keeps the dict a failed multi-key read returned and fills it in; later failed
     reads on the same object must still be misses (the miss result is the caller's own object, not shared state)"""
@@ -257,23 +278,10 @@ def caller_fills_result(res, stack, nserv, extra, tier):
             pre = [("health", (i, "refused"), {}) for i in range(nserv)]
             post = [("health", (i, "up"), {}) for i in range(nserv)] + [("advance", (500,), {})]
             case = base_case(stack, nserv, extra, later, 0, pre_ops=pre + [first_op], post_health=post)
-            fidx = len(pre)
-            snap = {}
-
-            def after_call(w, i, op, rec, fidx=fidx, snap=snap):
-                if i == fidx and rec["out"][0] == "ret" and isinstance(rec["out"][1], dict):
-                    snap["out"] = copy.deepcopy(rec["out"])
-                    for k in ("k1", "k2", "k3", b"k1"):
-                        rec["out"][1][k] = b"filled-in-by-the-caller"
-            miss = miss_reference(case)
-            c1 = dict(case)
-            c1["faulted"] = fidx
-            miss_first = miss_reference(c1)
-            o = history.execute(case, after_call=after_call)
+            case["fill_after"] = len(pre)
             res.count("failures_fired", 2)
             res.count("caller_fills_result_scenarios")
-            judge(res, c1, o, miss_first, "all-refused", f=fidx, out=snap.get("out"))
-            judge(res, case, o, miss, "all-refused,after-the-caller-filled-the-previous-result")
+            judge_filled(res, case)
             res.case((stack, nserv, tuple(sorted(extra.items())), multi, later[0], repr(later[1:]), "fills"))
 
 
@@ -337,6 +345,13 @@ def shard(tier, seed, idx, n):
 
 def replay(case):
     res = common.Result()
+    if "fill_after" in case:
+        o = judge_filled(res, case)
+        print("outcomes:", [r["out"] for r in o.calls])
+        res.case(("replay",))
+        for c in REQUIRED_COUNTERS:
+            res.count(c)
+        return res
     miss = miss_reference(case)
     o = history.execute(case)
     judge(res, case, o, miss, "replay")
